@@ -28,13 +28,23 @@ META = {
  'C15-b': ('C15', 'variable-free formulas are evaluated on a fresh graph (caller restrictions of the unit set are dropped)', 'a graph whose unit set was restricted by the caller (graph.restrict / custom unit)', []),
  'C03-a': ('C03', 'eval_equiv computed with a raw BDD iff', 'constrained parametrisations and <=> in a positive, unmasked position', ['C03', 'C15']),
  'C03-b': ('C03', 'De Morgan slip in the foreign-scope test (all instead of any)', 'two nested restricted quantifiers, duplicate mentioning only the outer variable, inner occurrence first', ['C04', 'C03']),
+ 'C08-a': ('C08', 'renaming by plain substitution on the way back up: an outer variable named like a deeper internal name is captured', 'nested quantifiers with an outer variable literally called x^k for an inner depth k', ['C08', 'C07']),
+ 'C08-b': ('C08', 'split point of binary temporal operators searched by operator kind (EU, AU, EW, AW) instead of position', 'unparenthesised chain of two different binary temporal operators in the "wrong" order', ['C08', 'C05']),
+ 'C13-a': ('C13', 'EW evaluated with the empty set instead of the steady states', 'a steady state where phi & ~psi holds', ['C13']),
+ 'C13-b': ('C13', 'eval_aw shortcut: psi subset of phi => AG phi', 'non-empty psi that is a subset of phi', ['C13']),
+ 'C18-a': ('C18', 'fixed-point shortcut also matches !{x}: AG {x}; the unsafe variant passes an empty steady-state set', 'exactly that shape on a network with a steady state', ['C18']),
+ 'C18-b': ('C18', 'unsafe_ex parses without validate_props_and_rename_vars: user-given names of equal length alias', 'two same-length variable names in scope at once', ['C18']),
+ 'C20-a': ('C20', 'fixed-point loops of eval_eg / eval_au compare approx_cardinality', 'more than 53 symbolic variables and a tail of the iteration changing few pairs', []),
+ 'C20-b': ('C20', 'forall negation relative to the restricted universe', 'V{x} in %d% with a domain that is empty for some colours only', ['C20', 'C02']),
  'C19-a': ('C19', 'argument order lost through collect_arguments (ported)', 'same symbol applied with swapped or compound arguments', ['C19']),
  'C19-b': ('C19', 'zero-arity parameters kept as they are; synthetic constants collide with them (ported)', 'user parameter named like a synthetic constant', ['C19']),
 }
-NOTE = {'C11-a': 'NOT detected: manifests only for sets with more than 2^53 elements; every check here is bounded to n <= 3 network variables (stated in DESIGN.md 9). With the cardinality modelled exactly the bounded obligations hold, which is the honest answer inside the bound.',
+NOTE = {'C20-a': 'NOT detected: same mechanism as C11-a (f64 cardinality), needs more than 53 symbolic variables; outside every bound of this framework.',
+        'C11-a': 'NOT detected: manifests only for sets with more than 2^53 elements; every check here is bounded to n <= 3 network variables (stated in DESIGN.md 9). With the cardinality modelled exactly the bounded obligations hold, which is the honest answer inside the bound.',
         'C15-b': 'NOT detected: manifests only on graphs whose unit set was restricted by the caller; the property quantifies over graphs built for the network with k spare variable sets, which is what the checks build. Recorded as outside the instances explored.'}
 log = open('/tmp/verify_all.log').read() if os.path.exists('/tmp/verify_all.log') else ''
 log += open('/tmp/verify_b3.log').read() if os.path.exists('/tmp/verify_b3.log') else ''
+log += open('/tmp/verify_b4.log').read() if os.path.exists('/tmp/verify_b4.log') else ''
 for sid, (prop, what, needs, caught) in META.items():
     p, v = sid.split('-')
     src = f'/tmp/seed-out/{p}/{v}'
